@@ -993,3 +993,33 @@ pub fn generate_gse_header(pkt_type: &PktType, label_type: &LabelType, gse_len: 
         | (gse_len & GSE_LEN_MASK);
     buffer
 }
+
+#[cfg(feature = "verif-hooks")]
+impl<C: CrcCalculator> Encapsulator<C> {
+    /// Verification hook: build an encapsulator in an arbitrary label re-use state.
+    pub fn verif_from_parts(
+        crc_calculator: C,
+        re_use_activated: bool,
+        re_max_consecutive: u8,
+        re_current_consecutive: u8,
+        last_label: Option<Label>,
+    ) -> Self {
+        Encapsulator {
+            crc_calculator,
+            re_use_activated,
+            re_max_consecutive,
+            re_current_consecutive,
+            last_label,
+        }
+    }
+
+    /// Verification hook: observe the label re-use state.
+    pub fn verif_parts(&self) -> (bool, u8, u8, Option<Label>) {
+        (
+            self.re_use_activated,
+            self.re_max_consecutive,
+            self.re_current_consecutive,
+            self.last_label,
+        )
+    }
+}
